@@ -64,6 +64,9 @@ def cumprodFrom (w : K) : List K → List K
   | [] => []
   | t :: ts => (w * t) :: cumprodFrom (w * t) ts
 
+/-- `v[1:-1] = new` (a step-1 slice assignment that keeps the length: NumPy raises unless `new` has `len(v) - 2` entries) -/
+def setInner (v new : List K) : List K := v.take 1 ++ new ++ v.drop (v.length - 1)
+
 /-- the volumes `[w, w t₁, w t₁ t₂, …]` -/
 def volsFrom (w : K) (ts : List K) : List K := w :: cumprodFrom w ts
 
